@@ -25,7 +25,7 @@ CHECKS.update({
  "C01": (MC, "exhaustive enumeration of Muxer API histories (no state merging) and of single-WriteData shapes, each run on the real Muxer and demuxed by the real Demuxer, compared with the written model",
          "Every history of length <= 3 (quick) / 4 (thorough) over a 24-25 operation alphabet from five set-up states, and every payload length 1..760 plus windows around 65535 and 131072 x PES header shapes (816 structural shapes) x first-packet adaptation fields sized to each room-left class: the real Demuxer must deliver, per PID and in order, exactly one PES per successful WriteData with identical payload, stream id, header fields and adaptation field content, and one PAT/PMT per emission describing the configuration.",
          "Trusted: the written model (what the harness handed to WriteData) and the comparison code; demuxer run with explicit packet size 188. Two open known findings (adaptation field that leaves no room for the PES header).", "5 C01"),
- "C18": (FE, "exhaustive fault-position enumeration: every Write index x {one-shot, permanent} on the real Muxer; every byte offset x reader kind x packet-size mode x API x read pattern on the real Demuxer",
+ "C18": (FE, "exhaustive fault-position enumeration: every Write index x {one-shot, permanent, half accepted} and every pair of one-shot failing Write indices on the real Muxer, seven standard-library error values; every byte offset x reader kind x packet-size mode x API x read pattern on the real Demuxer",
          "For each scenario every single Write call of the writer is made to fail (both modes) and the call during which the failure was injected must return an error wrapping it with n <= bytes accepted; for each stream every byte offset is the reader's failure point and the pending call must return a wrapping error (never ErrNoMorePackets, never a panic) with everything delivered before being a prefix of the fault-free output.",
          "Configurations whose fault-free baseline does not work (auto-detection under short reads on non-bufio readers) are skipped and named in the evidence; that behaviour is C08's subject.", "5 C18"),
 })
@@ -43,7 +43,7 @@ CHECKS.update({
  "C08": (MC, "enumeration of read schedules (every fixed chunk size 1..400; deviation-bounded short-read exploration at every Read call) x reader kind x explicit/auto x packet size 188+k on the real Demuxer, compared with the bytes.Reader/188 baseline",
          "For every configuration both the NextPacket and the NextData sequence must equal the baseline for every schedule; 188+k framings (k up to 16) must equal the 188 form; plain readers with auto-detection must equal the stream minus the two packets detection consumes.",
          "Deviation bound 2 on short reads; two base streams (10 and 7 packets).", "5 C08"),
- "C19": (MC, "exhaustive enumeration of all 2^n per-packet skip decisions and structured predicates, and of parser modes (observer, replacer, failing at every unit), on the real Demuxer, compared with the run on the physically filtered stream",
+ "C19": (MC, "exhaustive enumeration of all 2^n per-packet skip decisions (explicit and auto-detected packet size) and structured predicates, of every run length of consecutive skipped packets, of parser modes (observer, replacers, failing at every unit) and of skip vectors x parser modes, on the real Demuxer, compared with the run on the physically filtered stream",
          "Skipper == deletion for every decision vector through NextPacket and NextData; the predicate's call log must equal the reference decoding of every packet once, in order, with header and adaptation field fully parsed; the parser must see exactly the unit partition, skip=false must not change the output and skip=true must substitute exactly the parser's data.",
          "Streams of 7-10 packets (2^n vectors each).", "5 C19"),
  "C20": (MC, "exhaustive enumeration of Demuxer API histories over {NextPacket, NextData, Rewind} up to a depth bound plus every k / (k1,k2) calls before rewinds, on the real Demuxer over a seekable reader; differential oracle against a fresh Demuxer",
@@ -61,7 +61,7 @@ CHECKS.update({
  "C09": (FE, "exhaustive fault-position enumeration on reference-encoded sections (every bit flip, byte substitution, burst 2..32 bits at every offset, truncation, extension) judged by an independent section validator; exhaustive enumeration of a bounded family of Muxer PMT contents validated by the same decoder",
          "For each of six base units (PAT, PMT, 2-section SDT, NIT, 2-packet EIT, TOT) every listed corruption is delivered to the real Demuxer on the proper PID: a table may be delivered only if the reference validator (framing + bit-serial CRC-32) accepts its section and then with unaltered content, and a unit the reference accepts completely must be delivered. Mux side: 1..40 streams and every descriptor model that fits (struct Length correct / 0 / wrong): section_length must equal the bytes written, CRC must verify, bytes must equal the reference encoding.",
          "A corruption producing a different section with a valid CRC (2^-32) is counted as undecidable, not judged.", "5 C09"),
- "C10": (MC, "explicit enumeration of the CRC register's transition relation (state x input byte) on the real update function against a bit-serial LFSR; all messages of length 0..2; every split point of a message family",
+ "C10": (MC, "explicit enumeration of the CRC register's transition relation (state x input byte) on the real update function against a bit-serial LFSR; all messages of length 0..2; every split point of a message family; runs of equal bytes of every length 1..600 from four register values; every message length 0..300 in read-only memory (a write to the input faults)",
          "The checksum register is a 2^32-state, 256-input transition system: quick enumerates all 2^32 states for byte 0 plus all top bytes x 2^12 low patterns x all 256 bytes; thorough adds 2^24 stratified states x 256 bytes and then walks the complete 2^40 relation byte by byte under the budget. One-step agreement for all pairs implies agreement for every byte string (induction on length); chunking and residue are checked directly.",
          "Uses the verif hooks VerifUpdateCRC32 / VerifComputeCRC32 / VerifCRC32Table. Reference: one-bit-per-step LFSR.", "5 C10"),
  "C11": (EX, "bounded-exhaustive enumeration of the TS header and adaptation-field model space, each model checked in three directions (reference bytes -> parse, model -> write vs reference bytes, parse -> write identity) through hooks and through NextPacket / Muxer.WritePacket",
